@@ -153,6 +153,19 @@ def farr(rows):
     return np.asfortranarray([[float(x) for x in r] for r in rows], dtype=np.float64)
 
 
+def finite_cols(out):
+    """(columns as pairs of Fractions, list of column indices holding a NaN / infinity) of a 2 x N float array"""
+    import math
+    cols, bad = [], []
+    for c in range(out.shape[1]):
+        a, b = float(out[0, c]), float(out[1, c])
+        if math.isfinite(a) and math.isfinite(b):
+            cols.append((Fr(a), Fr(b)))
+        else:
+            bad.append(c)
+    return cols, bad
+
+
 def is_exact_float(fr):
     return Fr(float(fr)) == fr
 
